@@ -24,14 +24,20 @@ FAMILIES = ['rows', 'dtype', 'ndim', 'missing', 'longtext', 'nonascii', 'intrang
 
 
 def shards(tier):
-    return [{'family': f, 'ctx': c} for f in FAMILIES for c in ('minimal', 'rich')]
+    ctxs = ('minimal', 'rich') if tier == 'quick' else ('minimal', 'rich', 'minimal@64', 'rich@64', 'rich@20')
+    return [{'family': f, 'ctx': c} for f in FAMILIES for c in ctxs]
 
 
 def bounds(tier):
-    return {'families': FAMILIES, 'contexts': ['minimal', 'rich']}
+    return {'families': FAMILIES, 'contexts': ['minimal', 'rich'] if tier == 'quick' else
+            ['minimal', 'rich', 'minimal@64', 'rich@64', 'rich@20']}
 
 
 def base(ctx, rows=3, with_data=True, src='inline'):
+    vrl = 8192
+    if '@' in ctx:
+        ctx, v = ctx.split('@')
+        vrl = int(v)
     a = S.arr_spec('float64', [rows], [0x3FF0000000000000 + (k << 48) for k in range(rows)])
     b = S.arr_spec('uint16', [rows, 2], list(range(1, 2 * rows + 1)))
     ops = [S.op_lf(), S.op_origin(),
@@ -44,7 +50,7 @@ def base(ctx, rows=3, with_data=True, src='inline'):
                 S.op_add('axis', 'AX', 'AXIS', axis_id='AXID', coordinates=[1, 2]),
                 S.op_add('no_format', 'N', 'NOFORMAT'),
                 {'op': 'nfdata', 'lf': 'L0', 'nf': 'N', 'data': {'$bytes': '01020304'}}]
-    sp = {'sul': {'max_record_length': 8192}, 'ops': ops, 'write': {}}
+    sp = {'sul': {'max_record_length': vrl}, 'ops': ops, 'write': {}}
     if src != 'inline':
         d = {'CHAN-A': a, 'CHAN-B': b}
         sp['write']['data'] = ({'$datadict': d} if src == 'dict' else {'$struct': {'fields': [[k, v] for k, v in d.items()]}}
@@ -166,10 +172,9 @@ def make_spec(c):
             sp['ops'][3]['kw']['dataset_name'] = 'SOMETHING-ELSE'
         return sp
     if fam in ('longtext', 'nonascii'):
-        sp = base('rich')
-        if ctx == 'minimal':
-            sp = base('rich')          # the text positions need the rich objects; context differs by record length
-            sp['sul']['max_record_length'] = 128
+        sp = base('rich' + ('@' + ctx.split('@')[1] if '@' in ctx else ''))
+        if ctx.startswith('minimal'):
+            sp['sul']['max_record_length'] = 128 if '@' not in ctx else 40
         t = LONG[c['n']] if fam == 'longtext' else 'AB' + c['ch'] + 'CD'
         w = c['where']
         idx = {'channel-name': 2, 'frame-name': 4, 'origin-name': 1, 'zone-name': 5, 'nf-name': 8}
@@ -242,9 +247,9 @@ def make_spec(c):
         sp['write'].update(c['w'])
         return sp
     if fam == 'empty':
-        sp = base('rich')
-        if ctx == 'minimal':
-            sp['sul']['max_record_length'] = 128
+        sp = base('rich' + ('@' + ctx.split('@')[1] if '@' in ctx else ''))
+        if ctx.startswith('minimal'):
+            sp['sul']['max_record_length'] = 128 if '@' not in ctx else 40
         kw = copy.deepcopy(c['kw'])
         sp['ops'].append(S.op_add(c['kind'], 'E', 'EMPTY-ONE', **kw))
         return sp
